@@ -249,6 +249,18 @@ int jwt_base64uri_encode(char **_dst, const char *plain, int plain_len)
 	return i;
 }
 
+/* The key must belong to the family of the algorithm it is used with. */
+static int __check_key_type(jwt_t *jwt, jwk_key_type_t kty)
+{
+	if (jwt->key->kty == kty)
+		return 0;
+
+	jwt_write_error(jwt, "JWT[%s]: Key type does not match algorithm",
+			jwt_ops->name);
+
+	return 1;
+}
+
 static int __check_hmac(jwt_t *jwt)
 {
 	int key_bits = jwt->key->bits;
@@ -256,21 +268,21 @@ static int __check_hmac(jwt_t *jwt)
 	switch (jwt->alg) {
 	case JWT_ALG_HS256:
 		if (key_bits >= 256)
-			return 0;
+			return __check_key_type(jwt, JWK_KEY_TYPE_OCT);
 		jwt_write_error(jwt, "Key too short for HS256: %d bits",
 				key_bits);
 		break;
 
 	case JWT_ALG_HS384:
 		if (key_bits >= 384)
-			return 0;
+			return __check_key_type(jwt, JWK_KEY_TYPE_OCT);
 		jwt_write_error(jwt, "Key too short for HS384: %d bits",
 				key_bits);
 		break;
 
 	case JWT_ALG_HS512:
 		if (key_bits >= 512)
-			return 0;
+			return __check_key_type(jwt, JWK_KEY_TYPE_OCT);
 		jwt_write_error(jwt, "Key too short for HS512: %d bits",
 				key_bits);
 		break;
@@ -296,14 +308,14 @@ static int __check_key_bits(jwt_t *jwt)
 	case JWT_ALG_PS384:
 	case JWT_ALG_PS512:
 		if (key_bits >= 2048)
-			return 0;
+			return __check_key_type(jwt, JWK_KEY_TYPE_RSA);
 		jwt_write_error(jwt, "Key too short for RSA algs: %d bits",
 				key_bits);
 		break;
 
 	case JWT_ALG_EDDSA:
 		if (key_bits == 256 || key_bits == 456)
-			return 0;
+			return __check_key_type(jwt, JWK_KEY_TYPE_OKP);
 		jwt_write_error(jwt, "Key needs to be 256 or 456 bits: %d bits",
 				key_bits);
 		break;
@@ -311,21 +323,21 @@ static int __check_key_bits(jwt_t *jwt)
 	case JWT_ALG_ES256K:
 	case JWT_ALG_ES256:
 		if (key_bits == 256)
-			return 0;
+			return __check_key_type(jwt, JWK_KEY_TYPE_EC);
 		jwt_write_error(jwt, "Key needs to be 256 bits: %d bits",
 				key_bits);
 		break;
 
 	case JWT_ALG_ES384:
 		if (key_bits == 384)
-			return 0;
+			return __check_key_type(jwt, JWK_KEY_TYPE_EC);
 		jwt_write_error(jwt, "Key needs to be 384 bits: %d bits",
 				key_bits);
 		break;
 
 	case JWT_ALG_ES512:
 		if (key_bits == 521)
-			return 0;
+			return __check_key_type(jwt, JWK_KEY_TYPE_EC);
 		jwt_write_error(jwt, "Key needs to be 521 bits: %d bits",
 				key_bits);
 		break;
@@ -488,7 +500,8 @@ jwt_t *jwt_verify_sig(jwt_t *jwt, const char *head, unsigned int head_len,
 	case JWT_ALG_HS256:
 	case JWT_ALG_HS384:
 	case JWT_ALG_HS512:
-		if (_verify_sha_hmac(jwt, head, head_len, sig_b64))
+		if (jwt->key->kty != JWK_KEY_TYPE_OCT ||
+		    _verify_sha_hmac(jwt, head, head_len, sig_b64))
 			jwt_write_error(jwt, "Token failed verification");
 		break;
 
